@@ -202,6 +202,17 @@ func (db *DB) Backup(dir string) error {
 	if err := removeStaleBackupFiles(db.options.DirPath, dir); err != nil {
 		return err
 	}
+	// 目标目录旁遗留的 merge 临时目录属于此前使用该目录的数据库, 打开备份时不得将其加载
+	// 先删除完成标识, 保证删除中途崩溃时残缺的目录不会被当作已完成的 merge
+	destMerge := filepath.Join(filepath.Dir(filepath.Clean(dir)), filepath.Base(dir)+mergeDirName)
+	if _, err := os.Stat(destMerge); err == nil {
+		if err := os.Remove(datafile.GetFileName(destMerge, 0, datafile.MergeFinishedFileSuffix)); err != nil && !os.IsNotExist(err) {
+			return err
+		}
+		if err := os.RemoveAll(destMerge); err != nil {
+			return err
+		}
+	}
 	// 将数据目录中的数据文件拷贝到指定目录中
 	return utils.CopyDir(db.options.DirPath, dir, []string{datafile.FileLockSuffix})
 }
